@@ -488,6 +488,7 @@ CHECKS = {
     'C09': {
         'level': 'model_checking',
         'jobs': [
+            R('pair1', 'xpair1'), R('star', 'xstar'),   # a cooked socket is the origin of what it sends: a hop count left on the message by the caller means nothing
             T('MC_Hops', 'Hops_quick.cfg', workers=4),
             T('MC_Hops', 'Hops_full.cfg', workers=4, tiers=('thorough',), timeout=3000),
             C('hops', 'TestHops', 'TraceHops', trivial_len=3, vtimeout=3000),
